@@ -30,7 +30,7 @@
 (*           WATCH: nothing touched it / a no-op write addressed it /      *)
 (*           its value, existence or TTL changed)                          *)
 (***************************************************************************)
-EXTENDS Scan
+EXTENDS Extras
 
 NDB == 16
 DBs == 0..(NDB - 1)
@@ -65,7 +65,7 @@ DataCmd(name, a, K, tm, obs) ==
 
 IsDataCmd(name) == name \in StringCommands \cup CollCommands \cup ZSetCommands \cup StreamCommands
 
-ReadOnlyCmds == {"GET", "MGET", "STRLEN", "GETRANGE", "EXISTS", "TYPE", "KEYS", "DBSIZE", "RANDOMKEY",
+ReadOnlyCmds == {"GETBIT", "BITCOUNT", "GET", "MGET", "STRLEN", "GETRANGE", "EXISTS", "TYPE", "KEYS", "DBSIZE", "RANDOMKEY",
   "TTL", "PTTL", "LLEN", "LRANGE", "LINDEX", "SMEMBERS", "SISMEMBER", "SCARD", "SUNION", "SINTER", "SDIFF",
   "SRANDMEMBER", "HGET", "HMGET", "HGETALL", "HLEN", "HEXISTS", "HKEYS", "HVALS", "ZSCORE", "ZCARD", "ZRANK",
   "ZREVRANK", "ZRANGE", "ZREVRANGE", "ZRANGEBYSCORE", "ZREVRANGEBYSCORE", "ZCOUNT", "XRANGE", "XREVRANGE",
@@ -73,6 +73,7 @@ ReadOnlyCmds == {"GET", "MGET", "STRLEN", "GETRANGE", "EXISTS", "TYPE", "KEYS", 
 
 NameOf(a) == CmdName(Upper(a[1]))
 RECURSIVE Exec1(_, _, _, _, _, _)      \* defined below; scripts and transactions run commands through it
+RECURSIVE ExecExtra(_, _, _, _)         \* defined below: a command only the script executor implements
 
 -----------------------------------------------------------------------------
 (* connection-level commands *)
@@ -342,6 +343,12 @@ RunProg(S, c, prog, i, keys, args, tm, fz, robs) ==
              name == IF Len(argv) = 0 THEN "?" ELSE NameOf(argv)
              binary == \E j \in 1..Len(argv) : ~IsUtf8(argv[j])
              outs == IF name \in NotInScripts THEN SFail(S)
+                     ELSE IF name \in ExtraCommands
+                     THEN (* by C12 a script call means what the direct command means, and the direct dispatch does not know
+                             these commands: an error.  KNOWN FINDING script_superset: the executor implements them. *)
+                          SFail(S) \cup (IF "script_superset" \in Deviations
+                                         THEN {[o EXCEPT !.dv = @ \cup {"script_superset"}] : o \in ExecExtra(S, c, argv, tm)}
+                                         ELSE {})
                      ELSE IF binary /\ "script_binary" \in Deviations
                      THEN {[r |-> RErr, S |-> S, dv |-> {"script_binary"}]}
                      ELSE Exec1(S, c, argv, tm, IF st.ret = 1 /\ (name \notin ScanCommands \/ ObsOK(robs)) THEN robs ELSE NoObs, TRUE)
@@ -480,7 +487,7 @@ MarkWatch(S0, S1, d0, name, a, r) ==
         IF EntryAt(S0, d, k) # EntryAt(S1, d, k) THEN "must"
         ELSE IF name \in ReadOnlyCmds \/ r.t = "err" THEN "clean"
         ELSE IF name = "FLUSHALL" \/ (name = "FLUSHDB" /\ d = d0) THEN "may"
-        ELSE IF d = d0 /\ k \in named THEN (IF name \in MustByName THEN "must" ELSE "may")
+        ELSE IF d = d0 /\ k \in named THEN (IF name \in MustByName /\ r.t # "nil" THEN "must" ELSE "may")   \* (nil: SET NX/XX that did not set)
         ELSE "clean"
   IN [S1 EXCEPT !.conns = [x \in DOMAIN S1.conns |->
         [S1.conns[x] EXCEPT !.watch = [w \in DOMAIN S1.conns[x].watch |->
@@ -580,7 +587,12 @@ Exec0(S, c, a, tm, obs, inTxn) ==
                [] name = "BLPOP" -> CmdBPOP(S, c, a, tm, obs, TRUE, inTxn)
                [] name = "BRPOP" -> CmdBPOP(S, c, a, tm, obs, FALSE, inTxn)
                [] name = "?" -> SFail(S)
+               [] name \in ExtraCommands -> SFail(S)       \* the direct dispatch (and EXEC) does not know them
                [] OTHER -> SOut(RAny, S)
+
+ExecExtra(S, c, a, tm) ==
+  LET name == NameOf(a) d == S.conns[c].db
+  IN {[o EXCEPT !.S = BgTrack(S, ScanTrack(S, MarkWatch(S, o.S, d, name, a, o.r)))] : o \in Lift(S, d, ExtraCmd(name, a, S.dbs[d]))}
 
 Exec1(S, c, a, tm, obs, inTxn) ==
   LET name == NameOf(a)
